@@ -58,10 +58,11 @@ FLOORS = {"quick": {"evaluations": 10, "distinct_nontrivial": 5}, "thorough": {"
 EXHAUSTIVE_SPACE = {
     "quick": ("fixed 6-row frame: all 32 compositions into non-empty consecutive partitions + all weak compositions "
               "(empty partitions anywhere) into <=3 partitions (52 partitionings) x 22 operations x skipna in {True, False} "
-              "where it applies x targets {Series float-with-NaN, Series nullable Int64, DataFrame int/float-NaN/float/bool}, "
+              "where it applies x targets {Series float-with-NaN, DataFrame int/float-NaN/float/bool}, "
               "split_every=2, from_map partitions"),
     "thorough": ("fixed 6-row frame: all 32 compositions + all weak compositions into <=4 partitions (126 partitionings) "
-                 "x 22 operations x skipna x 3 targets, split_every=2, from_map partitions"),
+                 "x 22 operations x skipna x targets {Series float-with-NaN, DataFrame int/float-NaN/float/bool, Series "
+                 "nullable Int64}, split_every=2, from_map partitions"),
 }
 CLAIM = ("Every generated reduction/aggregation was computed by the real dask.dataframe and compared with pandas on the "
          "concatenated frame (kind, labels, dtype, values within rounding tolerance; documented tie rules for "
@@ -132,7 +133,7 @@ def _fixed_partitionings(tier):
     return out
 
 
-FIXED_TARGETS = (("series", "c"), ("series", "n"), ("frame", "acde"))
+FIXED_TARGETS = (("series", "c"), ("frame", "acde"), ("series", "n"))
 
 
 def cases(tier, seed):
@@ -140,7 +141,7 @@ def cases(tier, seed):
     # ---- complete sub-space -------------------------------------------------------------
     for cuts in _fixed_partitionings(tier):
         part = {"how": "slices", "cuts": cuts}
-        for target, cols in FIXED_TARGETS:
+        for target, cols in (FIXED_TARGETS if tier == "thorough" else FIXED_TARGETS[:2]):
             for op in SKIPNA_OPS:
                 for skipna in (True, False):
                     yield _fixed_case(op, target, cols, part, {"skipna": skipna})
@@ -148,7 +149,7 @@ def cases(tier, seed):
                 if not (op == "value_counts" and target == "frame"):
                     yield _fixed_case(op, target, cols, part, {})
     # ---- random -----------------------------------------------------------------------
-    k = 5000 if tier == "quick" else 90000
+    k = 3000 if tier == "quick" else 60000
     for _ in range(k):
         yield _rand_case(rng)
 
@@ -205,9 +206,12 @@ def _rand_case(rng):
                 kw["numeric_only"] = True
         else:
             cols = rng.sample(wide, rng.randint(1, 4))
-        case["cols"] = sorted(cols, key=WIDE.index) if rng.random() < 0.7 else cols
         if op in AXIS1_OPS and rng.random() < 0.3:
+            # row-wise: only columns on which the reduction is defined column-wise too (pandas answers mixed
+            # str/datetime/categorical rows through object coercion, and refuses the same program on an empty frame)
             kw["axis"] = 1
+            cols = [c for c in cols if c in NUMBOOL] or rng.sample(NUMBOOL, 2)
+        case["cols"] = sorted(cols, key=WIDE.index) if rng.random() < 0.7 else cols
         if op in NUMONLY_OPS and "numeric_only" not in kw and rng.random() < 0.3:
             kw["numeric_only"] = rng.random() < 0.5
     if op in SKIPNA_OPS and rng.random() < 0.6:
@@ -306,6 +310,16 @@ def _evaluate(case):
                 expected = _program(_select(pdf, case), pdf, case, False)
         except Exception as ex:  # noqa: BLE001 - the reference refuses
             return _Outcome("reject", msg="%s: %s" % (type(ex).__name__, str(ex)[:60]))
+        if len(pdf) == 0 and not case.get("fixed"):
+            # pandas accepts on an EMPTY frame programs it refuses on data (nothing is evaluated): the reduction is
+            # "defined" only if pandas also answers for a non-empty frame of the same schema
+            probe = _variant(case, nrows=6)
+            pp = _frame(probe)
+            try:
+                with np.errstate(all="ignore"):
+                    _program(_select(pp, probe), pp, probe, False)
+            except Exception as ex:  # noqa: BLE001
+                return _Outcome("reject", msg="only vacuously defined on the empty frame: %s" % type(ex).__name__)
         ddf = F.partition(pdf, case["part"])
         parts = dask.compute(*ddf.to_delayed(), scheduler="sync")
         facts = _facts(case, pdf, parts)
@@ -418,6 +432,21 @@ def _plain(x):
     return x
 
 
+def _na_direction(pr, pe):
+    """refine a values mismatch: `spurious-NA` (missing where pandas has a value), `lost-NA` (a value where pandas
+    has missing), else `values`"""
+    try:
+        rm, em = pr.isna().to_numpy(), pe.isna().to_numpy()
+        if rm.shape == em.shape:
+            if (rm & ~em).any():
+                return "spurious-NA"
+            if (em & ~rm).any():
+                return "lost-NA"
+    except Exception:  # noqa: BLE001
+        pass
+    return "values"
+
+
 def _cmp_pandas(r, e, ordered, check_dtype):
     """values first (missing markers unified), then the dtype facet: symptom `dtype` means 'values equal, dtype not'"""
     import pandas as pd
@@ -426,7 +455,10 @@ def _cmp_pandas(r, e, ordered, check_dtype):
 
     if type(r) is not type(e):
         return ("kind", "got %s, expected %s" % (type(r).__name__, type(e).__name__))
-    mm = _reclass(F.compare(_plain(r), _plain(e), ordered=ordered, rtol=1e-9, check_dtype=False))
+    pr, pe = _plain(r), _plain(e)
+    mm = _reclass(F.compare(pr, pe, ordered=ordered, rtol=1e-9, check_dtype=False))
+    if mm and mm[0] == "values" and ordered:
+        mm = (_na_direction(pr, pe), mm[1])
     if mm or not check_dtype:
         return mm
     if isinstance(e, pd.Series):
@@ -487,7 +519,7 @@ def _cmp_scalar(r, e, scale, check_dtype):
         rna = ena = False
     if rna or ena:
         if rna != ena:
-            return ("values", "scalar %r vs expected %r" % (r, e))
+            return ("spurious-NA" if rna else "lost-NA", "scalar %r vs expected %r" % (r, e))
         return None   # NaN / NA / NaT are all "missing" for a scalar (frames.compare discipline)
     if ek in ("float", "int", "bool") and rk in ("float", "int", "bool"):
         if ek == "float" or rk == "float":
@@ -569,19 +601,8 @@ def _single(case, col):
     return _variant(case, **ch)
 
 
-_MEMO = {}
-
-
 def _label(case, out):
-    """Narrow mechanism label.  Memoised on the static shape of the case (not on data)."""
-    f = out.facts
-    key = (case["op"], case["target"], tuple(sorted(set(_used_columns(case)))), tuple(sorted(case["kw"].items(), key=str)),
-           repr(case.get("se", "omit")), out.symptom, f["n"] == 0, f["empty_part"], f["allna_part"], f["nparts"] > 1, f["tree"],
-           case["part"]["how"], bool(case["part"].get("clear")))
-    key = repr(key)
-    if key not in _MEMO:
-        _MEMO[key] = _attribute(case, out)
-    return _MEMO[key]
+    return _attribute(case, out)
 
 
 def _min_cols(cur, s):
@@ -600,6 +621,31 @@ def _min_cols(cur, s):
     return cols
 
 
+def _merge_allna(cur, facts):
+    """partitioning in which every all-NA (or empty) partition has been merged into a neighbour (left one first),
+    repeated until no such partition is left or a single partition remains"""
+    pdf = _frame(cur)
+    cols = _used_columns(cur)
+    bounds = [0]
+    for ln in facts["lens"]:
+        bounds.append(bounds[-1] + ln)
+
+    def bad(i):
+        p = pdf.iloc[bounds[i]:bounds[i + 1]]
+        return len(p) == 0 or any(p[c].isna().all() and not pdf[c].isna().all() for c in cols)
+
+    changed = True
+    while changed and len(bounds) > 2:
+        changed = False
+        for i in range(len(bounds) - 1):
+            if bad(i):
+                del bounds[i if i > 0 else 1]
+                changed = True
+                break
+    how = cur["part"]["how"] if cur["part"]["how"] in ("slices", "delayed") else "slices"
+    return {"how": how, "cuts": bounds[1:-1]}
+
+
 def _attribute(case, out):
     s = out.symptom
     op = case["op"]
@@ -609,10 +655,6 @@ def _attribute(case, out):
     feats = []
     cur = case
     multi = op in ("cov", "corr") or case["kw"].get("axis") == 1
-    # -- op family: std/sem are var + post-processing
-    if op in ("std", "sem") and _repro(_variant(cur, op="var"), s):
-        fam = "var"
-        cur = _variant(cur, op="var")
     # -- columns / dtype class
     classes = set()
     if cur["target"] == "frame":
@@ -646,6 +688,8 @@ def _attribute(case, out):
                     feats.append("frame")
             elif multi:
                 feats.append("axis=1" if case["kw"].get("axis") == 1 else "frame")
+            if multi and len(cols) == 1 and case["kw"].get("axis") == 1:
+                pass
     else:
         used = _used_columns(cur)
         nullable = {c: "float64" for c in used if CLASS[c] == "nullable"}
@@ -669,6 +713,16 @@ def _attribute(case, out):
                     fv["kw"]["columns"] = col
                 if not _repro(fv, s):
                     feats.append("series")
+    # -- op family: std/sem are var + post-processing; every axis=1 reduction is map_partitions(M.<op>, axis=1)
+    if op in ("std", "sem") and _repro(_variant(cur, op="var", kw_axis=cur["kw"].get("axis", _DROP)), s):
+        fam = "var"
+        cur = _variant(cur, op="var")
+    if cur["kw"].get("axis") == 1 and cur["op"] != "sum":
+        v = _variant(cur, op="sum", kw_ddof=_DROP)
+        if _repro(v, s):
+            fam, cur = "rowwise", v
+    elif cur["kw"].get("axis") == 1:
+        fam = "rowwise" if _repro(_variant(cur, op="max", kw_min_count=_DROP), s) else fam
     if classes:
         feats.append("+".join(sorted(classes)) + "-column")
     if out.facts["n"] == 0:
@@ -697,15 +751,14 @@ def _attribute(case, out):
         one = {"how": part["how"], "cuts": []} if part["how"] in ("slices", "delayed") else \
             {"how": "npartitions", "n": 1, "clear": bool(part.get("clear"))}
         if facts["nparts"] > 1 and not _repro(_variant(cur, part=one), s):
-            explained = False
-            if facts["empty_part"]:
-                n = facts["n"]
-                cuts = sorted({min(max(0, c), n) for c in part.get("cuts", [])} - {0, n})
-                if not _repro(_variant(cur, part={"how": part["how"], "cuts": cuts}), s):
-                    feats.append("empty-partition")
-                    explained = True
-            if not explained:
-                feats.append("all-NA-partition" if facts["allna_part"] else "multi-partition")
+            n = facts["n"]
+            cuts = sorted({min(max(0, c), n) for c in part.get("cuts", [])} - {0, n})
+            if facts["empty_part"] and not _repro(_variant(cur, part={"how": part["how"], "cuts": cuts}), s):
+                feats.append("empty-partition")         # gone when the empty partitions are dropped
+            elif facts["allna_part"] and not _repro(_variant(cur, part=_merge_allna(cur, facts)), s):
+                feats.append("all-NA-partition")        # gone when every all-NA partition is merged into a neighbour
+            else:
+                feats.append("multi-partition")
     return "%s:%s:%s" % (fam, "&".join(feats) or "any", s)
 
 
